@@ -18,3 +18,16 @@ Theorem C14_intensity_uses_reported : forall scale bg (s : Sums (T:=R)),
   intensity ROps scale bg s = map (fun x => scale / o_shell (normalise ROps s) * x + bg) (o_f2 (normalise ROps s)).
 Proof. exact intensity_uses_reported. Qed.
 Print Assumptions C14_intensity_uses_reported.
+
+(* the equality clauses: a constant amplitude over the mesh (monodisperse, spherically symmetric) gives
+   (sum w F)^2 = (sum w)(sum w F^2); amplitudes within eps of one value (q -> 0) give a gap of at most eps^2 *)
+Theorem C14_equality_when_constant : forall c l,
+  Forall (fun p : pt => let '(w, f, _) := p in 0 <= w /\ f = c) l -> swF l * swF l = sw l * swFF l.
+Proof. exact equality_when_constant. Qed.
+Print Assumptions C14_equality_when_constant.
+
+Theorem C14_gap_bound : forall c eps l,
+  Forall (fun p : pt => let '(w, f, _) := p in 0 <= w /\ Rabs (f - c) <= eps) l -> 0 < sw l ->
+  0 <= swFF l / sw l - (swF l / sw l) * (swF l / sw l) <= eps * eps.
+Proof. exact gap_bound. Qed.
+Print Assumptions C14_gap_bound.
